@@ -185,8 +185,12 @@ class ProgScenario(WfScenario):
 
     def __init__(self, name, prog, results=None, wf_input=None, jinja=False,
                  compare_output=True, check_prereq=False, compare_ctx=True,
-                 warmup=None, **kw):
+                 warmup=None, update_to=None, **kw):
         from mc import wfgen
+        # update_to: a program the *definition* is changed to while the
+        # explored run is in flight (offered as an external choice at every
+        # point, once); the run itself must keep following `prog`
+        self.update_to = update_to
         # warmup: {'prog': ..., 'results': ...} - an earlier version of the
         # definition that is created and run to completion first; the
         # definition is then updated to `prog` and the explored run starts
@@ -209,8 +213,34 @@ class ProgScenario(WfScenario):
         d.update(prog=self.prog, jinja=self.jinja,
                  compare_output=self.compare_output,
                  check_prereq=self.check_prereq,
-                 compare_ctx=self.compare_ctx, warmup=self.warmup)
+                 compare_ctx=self.compare_ctx, warmup=self.warmup,
+                 update_to=self.update_to)
         return d
+
+    def externals(self):
+        out = super(ProgScenario, self).externals()
+        if self.update_to is not None and \
+                not env.W.extra.get('def_updated') and \
+                cmd_rows("select count(*) from workflow_executions_v2"):
+            from mc import wfgen
+
+            def do():
+                env.W.extra['def_updated'] = True
+                env.set_clock(env.W.clock)
+                env.with_ctx(lambda: env.wf_service.update_workflows(
+                    wfgen.render(self.update_to, jinja=self.jinja)))
+            out.append(env.Choice('X:update-definition', 'ext', do,
+                                  10 ** 9 + 8,
+                                  'the workflow definition is updated '
+                                  'while the run is in flight', cost=0,
+                                  tag='update_def'))
+        return out
+
+    def extra_state(self):
+        base = super(ProgScenario, self).extra_state()
+        if self.update_to is None:
+            return base
+        return [base, bool(env.W.extra.get('def_updated'))]
 
     def model(self):
         if self._model is None:
@@ -317,6 +347,12 @@ class ProgScenario(WfScenario):
 
 
 COMPLETED = ('SUCCESS', 'ERROR', 'CANCELLED', 'SKIPPED')
+
+
+def cmd_rows(sql):
+    c = env.raw_conn().cursor()
+    c.execute(sql)
+    return c.fetchone()[0]
 
 
 def split_by_root(snap, root_id):
